@@ -177,6 +177,8 @@ type World struct {
 	InFlight  int // operations currently inside the SDK (concurrent engines)
 
 	RetainBuffers bool
+	lastKeyOut    []byte // the last 32-byte result of an AEAD decrypt (a key) and the operation it belongs to
+	lastKeyOp     *OpRec
 	// RealSecrets: 0 = tracking pure-Go factory, 1 = real protectedmemory, 2 = real memguard (behind a retaining wrapper)
 	RealSecrets int
 	Retained    []*Retained
